@@ -2,6 +2,8 @@
 import itertools
 import random
 
+import numpy as np
+
 from vlib import refmodels as rm
 from vlib.common import case_seed, digest
 
@@ -124,7 +126,15 @@ def run_history(case, res):
             kind = "arbitrary"
         before = (set(cs.old_index_set), set(cs.active_index_set), sorted(_scheme_list(cs)))
         was_active = tuple(v) in cs.active_index_set
-        arg = list(v) if rng.random() < 0.5 else tuple(v)
+        form = rng.random()
+        if form < 0.4:
+            arg = list(v)
+        elif form < 0.8:
+            arg = tuple(v)
+        elif form < 0.9:
+            arg = np.array(v, dtype=np.int64)          # level vectors come out of numpy arithmetic in the adaptive drivers
+        else:
+            arg = tuple(np.int64(x) for x in v)
         ret = cs.update_adaptive_combi(arg)
         mret = model.update(v)
         after = (set(cs.old_index_set), set(cs.active_index_set), sorted(_scheme_list(cs)))
